@@ -25,6 +25,14 @@ Faithful(res, cause) ==
   /\ (res.kind = "validation" => res.errs # <<>>)
   /\ (res.kind = "ok" => res.errs = <<>>)
 
+\* ---- totality (C05): every call of every entry point returns; the abstract outcome of a call is one of these kinds.
+\* "panic", "crash" (the process died: abort, stack overflow, signal) and "hang" (no return within the time bound) are
+\* outcomes an execution of the real code can show but that are not behaviours of the Api.
+ReturnKinds == {"ok", "validation", "cddl", "doc", "utf8", "feature", "jsonctl", "b16", "b64", "other", "accepted", "rejected", "value", "error"}
+Total(kind) == kind \in ReturnKinds
+\* time bound that grows polynomially with the input size n (bytes): c * (n + 1)^2 microseconds with a floor
+WithinBound(n, us) == us <= 2000000 + 2 * (n + 1) * (IF n < 2048 THEN n + 1 ELSE 2048)
+
 \* ---- JSON pointer resolution (segments are code-point sequences; array indices decimal)
 IsIndex(seg) == seg # <<>> /\ \A i \in 1..Len(seg) : seg[i] >= 48 /\ seg[i] <= 57
 RECURSIVE IndexVal(_,_,_)
